@@ -1,3 +1,4 @@
+mod c07;
 mod c11;
 mod cxxgen;
 mod drive;
@@ -14,6 +15,28 @@ fn usage() -> ! {
     eprintln!("       pdlmc states <quick|thorough>");
     eprintln!("       pdlmc show <file.pdl>");
     std::process::exit(2);
+}
+
+fn check_source(prop: &str, text: &str, tier: Tier) -> i32 {
+    let run = drive::run_text_named(text, "t.pdl");
+    let parsed = match &run.parsed {
+        Some(p) => p,
+        None => {
+            eprintln!("the source does not parse: {:?}", run.outcome);
+            return 2;
+        }
+    };
+    let desc = drive::from_ast(parsed);
+    let st = pdlmc_core::select::Selected { id: 0, family: "file".into(), depth: 9, desc };
+    match prop {
+        "C13" => pygen::check_on(tier, Some(vec![st])),
+        "C14" => cxxgen::check_on(tier, Some(vec![st])),
+        "C19" => javagen::check_on(tier, Some(vec![st])),
+        _ => {
+            eprintln!("single-source mode is available for C13, C14 and C19 (the other engines replay through their explored state)");
+            2
+        }
+    }
 }
 
 fn main() {
@@ -39,6 +62,7 @@ fn main() {
                 "C16" => front::check_c16(tier),
                 "C10" => front2::check_c10(tier),
                 "C12" => front2::check_c12(tier),
+                "C07" => c07::check(tier),
                 "C11" => c11::check(tier),
                 "C13" => pygen::check(tier),
                 "C14" => cxxgen::check(tier),
@@ -63,6 +87,33 @@ fn main() {
         "supported" => {
             let tier = tier_of(args.get(2).map(|s| s.as_str()).unwrap_or("quick"));
             front::print_supported(tier);
+        }
+        "check-source" => {
+            // pdlmc check-source <C13|C14|C19> <file.pdl> [quick|thorough]: the property's engine
+            // on the single description in the file (both byte orders); nothing is written
+            let text = std::fs::read_to_string(&args[3]).expect("read");
+            let tier = tier_of(args.get(4).map(|s| s.as_str()).unwrap_or("quick"));
+            std::process::exit(check_source(&args[2], &text, tier));
+        }
+        "replay" => {
+            // pdlmc replay <replays/Cxx-....json>: re-run the property's engine on the source of
+            // the recorded violation, twice, and compare the verdicts
+            let j: serde_json::Value = serde_json::from_str(&std::fs::read_to_string(&args[2]).expect("read replay file")).expect("replay file is not JSON");
+            let prop = j["property"].as_str().unwrap_or("").to_string();
+            let sig = j["signature"].as_str().unwrap_or("").to_string();
+            let src = j["detail"]["state"]["source"].as_str().or(j["detail"]["source"].as_str()).unwrap_or("").to_string();
+            if src.is_empty() {
+                eprintln!("replay: the file records no source text");
+                std::process::exit(2);
+            }
+            println!("replaying property={prop}\n  recorded signature: {sig}\n  source:\n{src}");
+            let a = check_source(&prop, &src, Tier::Quick);
+            let b = check_source(&prop, &src, Tier::Quick);
+            if a != b {
+                eprintln!("replay: two runs disagree ({a} vs {b}): machinery error");
+                std::process::exit(2);
+            }
+            std::process::exit(a);
         }
         "gen" => {
             // pdlmc gen <json|rust|python|cxx|java> <file.pdl> [java out dir]
